@@ -71,6 +71,41 @@ func runC14(c *Ctx) {
 	}
 	c.Floor("C14.N1-unbounded-listener", 2)
 
+	// ---- N3b the count an event carries is the number of blocks handed to the hook during that sync ---------------
+	if inc := hookCounterInc(c); inc != nil {
+		others := counterOtherWrites(c, inc)
+		c.Check(len(others) == 0, "C14.N3-count-accumulates", c.short(inc.Parent().String())+" › block counter", inc.Pos(),
+			"the counter reported in SyncFinished.Count is written only by its per-block increment", "the block counter is also written at "+strings.Join(others, ", ")+" (e.g. reset per segment): SyncFinished.Count is not the number of blocks synced")
+	} else {
+		c.Unk("C14.N3-count-accumulates", "dagsync › hook wrapper", token.NoPos, "per-block counter increment not found")
+	}
+	c.Floor("C14.N3-count-accumulates", 1)
+
+	// ---- N1b registration is a handshake: the add/remove channels are unbuffered, so OnSyncFinished returns only
+	// after the distributor has taken the listener (a buffered channel lets a sync that finishes right after
+	// registration be distributed before the listener is added)
+	for _, f := range c.Funcs(dagsyncPkg) {
+		instrs(f.SSA, func(in ssa.Instruction) {
+			st, ok := in.(*ssa.Store)
+			if !ok {
+				return
+			}
+			a := c.E(st.Addr)
+			if a.Op != "field" || a.Name != "addEventChan" || fieldOwner(a) != "Subscriber" {
+				return
+			}
+			mk, isMk := unwrapV(st.Val).(*ssa.MakeChan)
+			sz := int64(-1)
+			if isMk {
+				if k, ok := constInt(c.E(mk.Size)); ok {
+					sz = k
+				}
+			}
+			c.Check(isMk && sz == 0, "C14.N1-registration-handshake", f.Name+" › "+a.Name, st.Pos(), "listener registration channel is unbuffered", "listener registration channel is not an unbuffered channel made here: registering no longer waits for the distributor, so a listener registered before a sync finished can miss its notification")
+		})
+	}
+	c.Floor("C14.N1-registration-handshake", 1)
+
 	// ---- N2/N3/N5 senders -----------------------------------------------------------------------
 	var sendFns []*ssa.Function
 	for _, f := range c.Funcs(dagsyncPkg) {
